@@ -42,15 +42,21 @@ pub fn check_case(table: &Table, mapfile: &str, case: &Case, pool: (usize, usize
             Ok(b) => b,
             Err((stage, diag)) => { if std::env::var("VERIF_DEBUG").is_ok() { eprintln!("REJECT {stage}: {}\n{}", case.body, diag.lines().take(6).collect::<Vec<_>>().join("\n")); } return (format!("rejected:{stage}"), None, diag) },
         };
-        let desugared = match desugar(truth, &block) { Ok(b) => b, Err(d) => return ("rejected:desugar".into(), None, d) };
+        // as the real format pipelines do: evaluate consts + const-simplify, validate difficulty, then desugar.
+        // (the *source* side below still runs the unsimplified block, so folding bugs show up as behaviour changes)
+        let mut simplified = block.clone();
+        if let Err(d) = tl::const_simplify(truth, &mut simplified) { return ("rejected:const_simplify".into(), None, d); }
         let hooks = make_language(&Pool { ints: pool.0, floats: pool.1 }, true);
+        if let Err(d) = tl::validate_difficulty(truth, &hooks, &simplified) { return ("rejected:validate_difficulty".into(), None, d); }
+        let desugared = match desugar(truth, &simplified) { Ok(b) => b, Err(d) => return ("rejected:desugar".into(), None, d) };
         let (instrs, _) = match tl::lower(truth, &hooks, &desugared.0, false) { Ok(x) => x, Err(d) => return ("rejected:lower".into(), None, d) };
         let warnings = truth.get_captured_diagnostics().unwrap_or_default();
         if !warnings.is_empty() { return ("compiled-with-warnings".into(), None, warnings); }
         // raise for the second comparison
         let raised = tl::raise(truth, &hooks, &instrs, &Default::default());
         let mut runs = vec![];
-        let diffs: Vec<u32> = if case.model.uses_switch { vec![0, 1, 2, 3] } else { vec![0] };
+        // difficulties the shortest switch has a position for (AstVm rejects the others as undefined)
+        let diffs: Vec<u32> = if case.model.uses_switch { (0..4u32).filter(|&d| case.model.min_switch_len == 0 || (d as usize) < case.model.min_switch_len).collect() } else { vec![0] };
         for (vi, val) in vals.iter().enumerate() {
             for &d in &diffs {
                 let src = run_astvm(truth, &block.0, val, d);
@@ -213,6 +219,7 @@ pub fn replay(detail: &serde_json::Value, id: &str) -> i32 {
     let mut model = Model::default();
     for r in REGS { if let Some(n) = r.name { if body.split(|c: char| !c.is_alphanumeric() && c != '_').any(|w| w == n) { model.regs.insert(r.id); } } if body.contains(&format!("REG[{}]", r.id)) { model.regs.insert(r.id); } }
     model.uses_switch = body.contains(':');
+    model.min_switch_len = 2;
     let case = Case { body: body.clone(), model, choices: vec![] };
     let r = check_case(&table, &table.mapfile_text(REGS), &case, pool, &valuations(), id);
     println!("outcome: {}", r.outcome);
